@@ -26,7 +26,9 @@ MANIFEST = dict(
 BOUNDS = {'quick': dict(T=5, Tp=3, Tt=2), 'thorough': dict(T=6, Tp=4, Tt=3)}
 BOUNDS['replay'] = BOUNDS['quick']
 CHARS = ['a', 'b', 'c']
-STYLES = ['peaky', 'margin1', 'runnerup', 'tie_up', 'huge', 'uneven']
+ZW = '\u200b'                           # the placeholder the engine appends to its character table for the blank class
+STYLES = ['peaky', 'margin1', 'runnerup', 'tie_up', 'huge', 'uneven', 'masked']
+NOT_PAINTABLE = ('huge', 'masked')      # styles whose scores do not fit the 8-bit pixels that carry the tensor into the stub network
 H = 8
 _ENG = {}
 
@@ -57,6 +59,21 @@ def scores_for(paths, C, style):
                 hi = 30 + 12 * ((t + n) % 3)
                 S[n, :, t] = hi - 2
                 S[n, c, t] = hi
+        return S
+    elif style == 'masked':
+        # classes of probability exactly ZERO: a score / log-probability of -inf is a legitimate answer of a network (output classes masked
+        # with -inf before the soft-max, log of a soft-max that underflowed).  The arg-max of every frame is finite and unambiguous.
+        # Frame by frame (shifted from line to line): all the losing classes are -inf (a one-hot frame) / only the class after the winner
+        # (a symbol, or blank when the winner is the last symbol; the first symbol when blank wins) / no class at all.
+        S = np.full((N, C, T), 20.0, dtype=np.float64)
+        for n, p in enumerate(paths):
+            for t, c in enumerate(p):
+                k = (t + n) % 3
+                if k == 0:
+                    S[n, :, t] = -np.inf
+                elif k == 1:
+                    S[n, (c + 1) % C, t] = -np.inf
+                S[n, c, t] = 150.0
         return S
     elif style == 'huge':
         # un-normalised scores of large magnitude, beyond any constant a decoder might use as "certainly the largest"
@@ -230,8 +247,29 @@ def check_case(case, ctx):
                       f'greedy_decode_ctc, batch of {len(paths)} lines, style {style}: first call {list(got)[:4]}, second call on the same tensor '
                       f'{list(again)[:4]} (tensor modified: {not torch.equal(t, before)})')
 
-    if style == 'huge':
-        ctx.tag('huge-scores')
+    # the character table in the form the OCR json holds it (just the real symbols, list or tuple - what decoder_factory extends by <BLANK> for
+    # the stand-alone decoder): blank is the last class OF THE SCORES and is never looked up, so the table needs no entry for it.  A decoder may
+    # refuse such a table (any exception is accepted); a text that IS returned has to be the collapse mapped through that table.
+    uses_last_symbol = any((C - 2) in p for p in paths)
+    for form, table in (('list', list(chars)), ('tuple', tuple(chars))):
+        try:
+            bare = list(greedy_decode_ctc(t, table))
+        except Exception:  # noqa
+            ctx.tag('table-without-blank-entry-refused')
+            continue
+        finally:
+            ctx.executed()
+        if uses_last_symbol:
+            ctx.tag('table-without-blank-entry')
+        bad_b = first_bad(bare)
+        if bad_b:
+            ctx.violation('greedy-equals-collapse', f'{K}/greedy_decode_ctc/table-without-blank-entry/{"count" if "outputs for" in bad_b else "text"}',
+                          f'greedy_decode_ctc with the character table {table!r} (the {C - 1} real symbols as a {form}, no entry for the blank class), '
+                          f'batch of {len(paths)} lines, style {style}: {bad_b}; with the table {chars + [ZW]!r} it returns {list(got)[:4]}')
+            break
+
+    if style in NOT_PAINTABLE:
+        ctx.tag('huge-scores' if style == 'huge' else 'zero-probability-classes')
         dec = got
     else:
         # (2) the real engine on a stub network that reproduces the tensor (8-bit pixels carry the scores: not for the 'huge' style)
@@ -240,11 +278,11 @@ def check_case(case, ctx):
         img[:, :C, :, 0] = S.astype(np.uint8)
         dec, logits = eng.run_ocr(img)
         ctx.executed()
-        if logits.shape != (len(paths), T, C) or np.abs(logits - S.transpose(0, 2, 1)).max() > 1e-3:
+        if logits.shape != (len(paths), T, C) or not (np.abs(logits - S.transpose(0, 2, 1)).max() <= 1e-3):
             # is it the stub (harness) or the engine?  ask the network itself, the way run_ocr feeds it
             with torch.no_grad():
                 direct = eng.model(torch.from_numpy(img).float().div(255.0).permute(0, 3, 1, 2)).numpy()
-            if direct.shape != S.shape or np.abs(direct - S).max() > 1e-3:
+            if direct.shape != S.shape or not (np.abs(direct - S).max() <= 1e-3):
                 from mc.core import HarnessError
                 raise HarnessError('stub network does not reproduce the enumerated tensor')
             ctx.violation('engine-and-standalone-agree', f'{K}/engine.run_ocr/returned-logits-are-not-the-network-outputs',
@@ -326,6 +364,7 @@ def check_case(case, ctx):
     # (3,4) stand-alone decoders, line by line
     letters = chars + [BLANK_SYMBOL]
     gd = GreedyDecoder(letters)
+    zp = '-with-zero-probability-classes' if style == 'masked' else ''
     if C == 4 and style == 'peaky' and len(paths) <= 3:
         # a character table with symbols that Unicode normalisation would change (ANGSTROM SIGN, OHM SIGN, a decomposed letter): the
         # transcription consists of exactly the table entries
@@ -348,13 +387,31 @@ def check_case(case, ctx):
         g = gd(lp).best_hyp()
         ctx.executed()
         if g != want[i]:
-            ctx.violation('greedy-equals-collapse', f'{K}/GreedyDecoder/text',
-                          f'GreedyDecoder on path {p} (style {style}) -> {g!r}, collapse gives {want[i]!r}',
+            ctx.violation('greedy-equals-collapse', f'{K}/GreedyDecoder/text{zp}',
+                          f'GreedyDecoder on path {p} (style {style}) -> {g!r}, collapse gives {want[i]!r}' +
+                          (f'; log-probabilities {lp.tolist()}' if zp else ''),
                           dict(case, lines=[p]))
+        if style == 'huge':
+            # the same output normalised the plain way in single precision, log(softmax(x)): the soft-max of the losing classes underflows
+            # to exactly 0 and its log is -inf - properly normalised log-probabilities with the same arg-max path
+            x32 = S[i].T.astype(np.float32)
+            e = np.exp(x32 - x32.max(axis=1, keepdims=True))
+            with np.errstate(divide='ignore'):
+                lp32 = np.log(e / e.sum(axis=1, keepdims=True))
+            if not np.isneginf(lp32).any() or not (lp32.argmax(axis=1) == np.asarray(p)).all():
+                from mc.core import HarnessError
+                raise HarnessError('log(softmax) of the huge scores did not underflow to -inf / changed the arg-max path')
+            gu = gd(lp32).best_hyp()
+            ctx.executed()
+            ctx.tag('underflowed-softmax-log-probs')
+            if gu != want[i]:
+                ctx.violation('greedy-equals-collapse', f'{K}/GreedyDecoder/text-from-log-of-an-underflowed-softmax',
+                              f'GreedyDecoder on path {p}: the float32 log(softmax) of the scores (0 for the winning class, -inf for the others) '
+                              f'-> {gu!r}, collapse gives {want[i]!r}', dict(case, lines=[p]))
         g2, _ = greedy_filtration(S[i].T.astype(np.float32), chars + ['​'])
         ctx.executed()
         if g2 != want[i]:
-            ctx.violation('greedy-equals-collapse', f'{K}/greedy_filtration/text',
+            ctx.violation('greedy-equals-collapse', f'{K}/greedy_filtration/text{zp}',
                           f'greedy_filtration on path {p} (style {style}) -> {g2!r}, collapse gives {want[i]!r}',
                           dict(case, lines=[p]))
         if len(paths) <= 3:
